@@ -425,6 +425,68 @@ def fileNameOut (c : FileNameCfg) (len : Nat) : Outcome Nat :=
               else if len + c.ext + c.app + 1 ≤ c.cap then .ok (len + c.ext + c.app) else .overflow c.cap
   | none => if len + c.ext + c.app + 1 ≤ c.cap then .ok (len + c.ext + c.app) else .overflow c.cap
 
+/-! ## `non_unique_types_string` (exp2cxx selects.c, exp2python selects_python.c) -/
+
+structure NonUniqueCfg where
+  cap : Nat            -- bytes malloc'ed for the result
+  openLen : Nat        -- "("
+  sepLen : Nat         -- " | "
+  zeroLen : Nat        -- "0" (when no kind is reached twice)
+  closeLen : Nat       -- ")"
+  kinds : List Nat     -- lengths of "sdaiINTEGER", … in switch order
+  deriving Repr
+
+/-- characters the loop over the kinds appends; `flags[i]` = kind i is reached along two or more paths -/
+def nuBody (sep : Nat) : Bool → List Nat → List Bool → Nat
+  | _, [], _ => 0
+  | _, _ :: _, [] => 0
+  | first, k :: ks, f :: fs =>
+    if f then (if first then 0 else sep) + k + nuBody sep false ks fs else nuBody sep first ks fs
+
+/-- `strlen` of the string the function builds -/
+def nonUniqueLen (c : NonUniqueCfg) (flags : List Bool) : Nat :=
+  let body := nuBody c.sepLen true c.kinds flags
+  c.openLen + (if (List.zipWith (fun (_ : Nat) (f : Bool) => f) c.kinds flags).any id then body else c.zeroLen) + c.closeLen
+
+/-- the unchecked `strcat`s store `strlen + 1` bytes into the malloc'ed block -/
+def nonUniqueOut (c : NonUniqueCfg) (flags : List Bool) : Outcome Nat :=
+  if nonUniqueLen c flags + 1 ≤ c.cap then .ok (nonUniqueLen c flags) else .overflow c.cap
+
+/-- longest possible result -/
+def nonUniqueMax (c : NonUniqueCfg) : Nat :=
+  c.openLen + max c.zeroLen (c.kinds.sum + c.sepLen * (c.kinds.length - 1)) + c.closeLen
+
+/-! ## recursion over the supertype relation (`ENTITYcalculate_inheritance`, `ENTITYget_named_attribute`) -/
+
+/-- `supers e` = the entities entity `e` names in SUBTYPE OF — any relation, cyclic ones included -/
+abbrev Hier := Nat → List Nat
+
+mutual
+/-- one call for entity `e`; `marked` = entities that already carry the visited mark.
+`markFirst` = the function marks `e` before it walks the supertypes (else after).  `none` = out of fuel
+(the C recursion would not return). -/
+def visit (markFirst : Bool) (h : Hier) : Nat → List Nat → Nat → Option (List Nat)
+  | 0, _, _ => none
+  | fuel + 1, marked, e =>
+    match visitSupers markFirst h fuel (if markFirst then e :: marked else marked) (h e) with
+    | none => none
+    | some m => some (if markFirst then m else e :: m)
+/-- the loop over the supertypes: recurse into those that are not marked yet -/
+def visitSupers (markFirst : Bool) (h : Hier) : Nat → List Nat → List Nat → Option (List Nat)
+  | _, marked, [] => some marked
+  | fuel, marked, s :: rest =>
+    if s ∈ marked then visitSupers markFirst h fuel marked rest
+    else
+      match visit markFirst h fuel marked s with
+      | none => none
+      | some m => visitSupers markFirst h fuel m rest
+end
+
+/-- entities of the universe `u` that are not marked -/
+def notIn (marked : List Nat) (x : Nat) : Bool := !decide (x ∈ marked)
+
+def unmarked (u marked : List Nat) : Nat := (u.filter (notIn marked)).length
+
 /-! ## exit status -/
 
 inductive Tool where
